@@ -60,9 +60,9 @@ func propC18(rt *rapid.T, t *testing.T, c *ev.Collector) {
 	blocksToSave := ts.Keepers.Epochstorage.EpochsToSaveRaw(ts.Ctx) * ts.Keepers.Epochstorage.EpochBlocksRaw(ts.Ctx)
 
 	var badges []*c18Badge
-	used := map[c18Use]uint64{}       // model: accepted CuSum per (badge, provider)
-	acceptedTxs := map[c18Use]int{}   // accepted txs per (badge, provider)
-	firstUse := map[c18Use]bool{}     // a usage record was created (first accepted relay)
+	used := map[c18Use]uint64{}     // model: accepted CuSum per (badge, provider)
+	acceptedTxs := map[c18Use]int{} // accepted txs per (badge, provider)
+	firstUse := map[c18Use]bool{}   // a usage record was created (first accepted relay)
 	cls := map[string]int{}
 	sess := uint64(1)
 	multiTx, afterExpiry := 0, 0
